@@ -3,6 +3,7 @@
 package main
 
 import (
+	"unicode"
 	"bytes"
 	"fmt"
 	"strings"
@@ -58,7 +59,9 @@ func uextTable(src []byte) string {
 	add := func(r rune) {
 		if !seen[r] {
 			seen[r] = true
-			parts = append(parts, fmt.Sprintf("%d,%s,%s", r, b01(cm.VerifIsUnicodeWhitespace(r) && !(r <= 0x7f && (r == ' ' || r == '\t' || r == '\n' || r == '\r')) || r == ' '), b01(cm.VerifIsUnicodePunctuation(r))))
+			// the tables come from Go's unicode package, NOT from the library under test: a library predicate that
+			// drifts from them is then a correspondence difference with the model
+			parts = append(parts, fmt.Sprintf("%d,%s,%s", r, b01(unicode.Is(unicode.Zs, r)), b01(unicode.In(r, unicode.Pc, unicode.Pd, unicode.Pe, unicode.Pf, unicode.Pi, unicode.Po, unicode.Ps))))
 		}
 	}
 	add(' ')
@@ -118,6 +121,32 @@ func runC11(c *Ctx) {
 		orc.Flush()
 		return
 	}
+	// the two rune classifiers against CommonMark 0.30 section 2.1 over Go's Unicode tables, for EVERY code point, and
+	// the two table facts the theorems unicode_whitespace_eq_spec / unicode_punctuation_eq_spec assume
+	{
+		asciiPunct := "!\"#$%&'()*+,-./:;<=>?@[\\]^_`{|}~"
+		tableOK := unicode.Is(unicode.Zs, 0x20)
+		for r := rune(0); r <= unicode.MaxRune; r++ {
+			inP := unicode.In(r, unicode.Pc, unicode.Pd, unicode.Pe, unicode.Pf, unicode.Pi, unicode.Po, unicode.Ps)
+			if r < 0x80 && inP && !strings.ContainsRune(asciiPunct, r) {
+				tableOK = false
+			}
+			wantWS := unicode.Is(unicode.Zs, r) || r == '\t' || r == '\n' || r == '\f' || r == '\r'
+			wantP := inP || (r < 0x80 && strings.ContainsRune(asciiPunct, r))
+			if got := cm.VerifIsUnicodeWhitespace(r); got != wantWS {
+				c.report("unicode-whitespace-classifier-differs-from-spec", []byte(string(r)), "all-code-points", fmt.Sprintf("U+%04X: isUnicodeWhitespace=%v, CommonMark 0.30 (Zs, tab, LF, FF, CR)=%v", r, got, wantWS), nil, nil)
+				break
+			}
+			if got := cm.VerifIsUnicodePunctuation(r); got != wantP {
+				c.report("unicode-punctuation-classifier-differs-from-spec", []byte(string(r)), "all-code-points", fmt.Sprintf("U+%04X: isUnicodePunctuation=%v, CommonMark 0.30 (ASCII punctuation or Pc Pd Pe Pf Pi Po Ps)=%v", r, got, wantP), nil, nil)
+				break
+			}
+		}
+		if !tableOK {
+			c.report("unicode-table-hypothesis-fails", nil, "all-code-points", "U+0020 not in Zs, or an ASCII non-punctuation character in a P category", nil, nil)
+		}
+		c.fam("all-code-points", "cases", int(unicode.MaxRune)+1)
+	}
 	// generated predicates on their finite domains
 	for ot := 1; ot <= 4; ot++ {
 		for ct := 1; ct <= 4; ct++ {
@@ -167,7 +196,47 @@ func runC11(c *Ctx) {
 			}
 		}
 	}
-	alpha := []string{"*", "**", "***", "_", "__", "a", "b", " ", ".", ",", "é", " ", "“", "”", "(", ")", " ", "\xff", "ß", "$", "+", "~", "^", "|", "="}
+	// non-ASCII SYMBOLS (Sc, Sm, So: not punctuation in 0.30) and the form feed (Unicode whitespace) as neighbours
+	for _, p := range []string{"£", "€", "©", "×", "→", "\f", "¡", "\u2003"} {
+		for _, d := range []string{"*", "_", "**", "__"} {
+			for _, t := range []string{"a" + p + d + "a" + d, d + "a" + d + p, "a" + d + p + d + "a", d + p + d + "a", "a" + p + d + "b" + d + p + "c", d + p + "a" + p + d, p + d + "a" + d + p, "a" + d + p + "b" + d, d + "a" + p + d + "b", d + p + "b" + d} {
+				one("symbol-and-formfeed-neighbours", []byte(t))
+			}
+		}
+	}
+	// very many delimiter runs in one paragraph (a bound on the delimiter stack would show here)
+	for _, n := range []int{300, 513, 600, 1100} {
+		for _, unit := range []string{"*a* ", "**a** ", "_a_ ", "*a ", "a* ", "*a**b* ", "_a *b_ c* "} {
+			if c.quick() && n > 600 && unit != "*a* " {
+				continue
+			}
+			one("many-runs", []byte(strings.Repeat(unit, n)))
+		}
+	}
+	// emphasis around bracket pairs that do or do not become links (live and dead brackets): the whole inline parser,
+	// compared with the Lean model of Parse (parse op)
+	{
+		pc := &Batch{c: c}
+		pieces := []string{"[", "]", "](c)", "[b](c)", "[d]", "*", "_", "**", "a", " ", "x", "![", "[r]", "][r]"}
+		for i := 0; i < c.N(6000, 100000); i++ {
+			rng := newRng(c.Seed, "c11-brackets", i)
+			var sb strings.Builder
+			for k := 2 + rng.Intn(10); k > 0; k-- {
+				sb.WriteString(rng.Pick(pieces))
+			}
+			d := sb.String() + "\n"
+			if rng.Intn(2) == 0 {
+				d += "\n[r]: /u\n"
+			}
+			c.fam("brackets-and-emphasis", "cases", 1)
+			parseCorr(c, pc, []byte(d))
+		}
+		for _, d := range []string{"[a [b](c) *d] e*\n", "*a [b [c](d) e*] f\n", "[x [y](z) __d] e__\n", "[a [b](c) *d*] e\n", "*[a*](c)\n", "[*a](c)*\n", "**[a [b](c) d]** e\n"} {
+			parseCorr(c, pc, []byte(d))
+		}
+		pc.Flush()
+	}
+	alpha := []string{"*", "**", "***", "_", "__", "a", "b", " ", ".", ",", "é", " ", "“", "”", "(", ")", " ", "\xff", "ß", "$", "+", "~", "^", "|", "=", "£", "×", "\f"}
 	for i := 0; i < c.N(40000, 1000000); i++ {
 		rng := newRng(c.Seed, "c11", i)
 		var sb strings.Builder
